@@ -241,3 +241,89 @@ fn c20_parse_u8_total() {
 	kani::cover!(n == 0, "empty component");
 	core::mem::forget(r);
 }
+
+/// "1.2.1" followed by TAIL solver-chosen characters: the strings that have a valid triple in
+/// front and something after it (a fourth component, a trailing dot, junk, or more digits of
+/// the patch component).
+fn parse_tail<const TAIL: usize, const N: usize, const PEPPI: bool>() -> bool {
+	let mut bytes = [0u8; N];
+	// the triple in front is concrete ("1.2.1": the patch component can grow to three digits and stay <= 255): with solver-chosen digits as well the three
+	// variants went past 12 GB each without a verdict (str::split's searcher over symbolic bytes)
+	bytes[0] = b'1';
+	bytes[1] = b'.';
+	bytes[2] = b'2';
+	bytes[3] = b'.';
+	bytes[4] = b'1';
+	let mut i = 0;
+	while i < TAIL {
+		let k: usize = kani::any();
+		kani::assume(k < ALPHABET.len());
+		bytes[5 + i] = ALPHABET[k];
+		i += 1;
+	}
+	let s = unsafe { core::str::from_utf8_unchecked(&bytes) };
+	let want = ref_parse(&bytes);
+	if PEPPI {
+		let r = PVersion::from_str(s);
+		match (&r, want) {
+			(Ok(v), Some(w)) => assert!((v.0, v.1, v.2) == w),
+			(Err(_), None) => {}
+			_ => assert!(false),
+		}
+		let ok = r.is_ok();
+		core::mem::forget(r);
+		ok
+	} else {
+		let r = Version::from_str(s);
+		match (&r, want) {
+			(Ok(v), Some(w)) => assert!((v.0, v.1, v.2) == w),
+			(Err(_), None) => {}
+			_ => assert!(false),
+		}
+		let ok = r.is_ok();
+		core::mem::forget(r);
+		ok
+	}
+}
+
+// @verif property=C20 tier=thorough mem=16 timeout=3600
+// @encodes impl FromStr for peppi::io::slippi::Version, peppi::io::parse_u8 on strings with a valid triple in front
+// @symbolic 8 two trailing characters over the 13-symbol alphabet
+// @bound strings `1.2.1XY` (7 bytes): fourth components, trailing dots, junk and three-digit patch components vs. the reference scanner
+// @stub alloc::fmt::format = returns an empty String
+#[kani::proof]
+#[kani::unwind(10)]
+#[kani::stub(alloc::fmt::format, crate::util::format_stub)]
+fn c20_parse_tail2_slippi() {
+	let ok = parse_tail::<2, 7, false>();
+	kani::cover!(ok, "accepted");
+	kani::cover!(!ok, "rejected");
+}
+
+// @verif property=C20 tier=quick mem=16 timeout=2400
+// @encodes impl FromStr for peppi::io::slippi::Version, peppi::io::parse_u8 on strings with a valid triple in front
+// @symbolic 4 one trailing character over the 13-symbol alphabet
+// @bound strings `1.2.1X` (6 bytes): trailing dot, junk, two-digit patch component vs. the reference scanner
+// @stub alloc::fmt::format = returns an empty String
+#[kani::proof]
+#[kani::unwind(10)]
+#[kani::stub(alloc::fmt::format, crate::util::format_stub)]
+fn c20_parse_tail1_slippi() {
+	let ok = parse_tail::<1, 6, false>();
+	kani::cover!(ok, "accepted");
+	kani::cover!(!ok, "rejected");
+}
+
+// @verif property=C20 tier=thorough mem=16 timeout=2400
+// @encodes impl FromStr for peppi::io::peppi::Version, peppi::io::parse_u8 on strings with a valid triple in front
+// @symbolic 4 one trailing character over the 13-symbol alphabet
+// @bound strings `1.2.1X` (6 bytes)
+// @stub alloc::fmt::format = returns an empty String
+#[kani::proof]
+#[kani::unwind(10)]
+#[kani::stub(alloc::fmt::format, crate::util::format_stub)]
+fn c20_parse_tail1_peppi() {
+	let ok = parse_tail::<1, 6, true>();
+	kani::cover!(ok, "accepted");
+	kani::cover!(!ok, "rejected");
+}
